@@ -72,7 +72,8 @@ DOMAINS = {
 }
 
 SPECS = {
-    'int': ['k', 'k/cmp', 'k/cmp/asc', 'k/cmp/desc', 'EXPR:k',
+    'int': ['k', 'k/cmp', 'k/cmp/asc', 'k/cmp/desc', 'k/cmp/DESC',
+            'k/cmp/Desc', 'k/cmp/ASC', 'EXPR:k/cmp/DESC', 'EXPR:k',
             'EXPR:k/cmp/desc', 'NOSORT',
             # X: = the sequence is given as an expression ("seq")
             'X:NOSORT', 'X:k', 'X:EXPR:k'],
@@ -156,7 +157,7 @@ def parse_spec(spec):
         p = f.split('/')
         out.append(({'k': 0, 'k2': 1}[p[0]],
                     len(p) > 1 and p[1] == 'nocase',
-                    len(p) > 2 and p[2] == 'desc'))
+                    len(p) > 2 and p[2].lower() == 'desc'))
     return out
 
 
@@ -285,6 +286,11 @@ def judge_one(res, ktype, syms, spec, mapping):
                     d['expected'] = extra
                 res.violate(clause, '%s:%s%s' % (clause, tag, sigx), d, case)
 
+            if isinstance(got, BaseException) and any(
+                    w in spec for w in ('DESC', 'Desc', 'ASC')):
+                # an upper-case direction may be refused; if it is accepted
+                # it has to mean what it says (judged below)
+                continue
             if isinstance(got, BaseException):
                 absent = any(ABSENT in k for k in keys)
                 bad('exc', None, ':%s%s' % (type(got).__name__,
